@@ -509,6 +509,29 @@ pub fn run(ctx: &mut Ctx) {
         if !matches!(guard(|| scale_typegen::utils::ensure_unique_type_paths(&mut r)), Ok(Ok(()))) {
             continue;
         }
+        if case % 3 == 1 {
+            // the derive records type names as they were written: `codec::Compact<u32>` just as well
+            // as `Compact<u32>` (the registry's types are the same)
+            let mut n = 0u64;
+            for t in r.types.iter_mut() {
+                let mut fix = |fs: &mut Vec<Field<PortableForm>>| {
+                    for f in fs.iter_mut() {
+                        if let Some(tn) = &mut f.type_name {
+                            if tn.contains("Compact<") {
+                                *tn = tn.replace("Compact<", "codec::Compact<");
+                                n += 1;
+                            }
+                        }
+                    }
+                };
+                match &mut t.ty.type_def {
+                    TypeDef::Composite(c) => fix(&mut c.fields),
+                    TypeDef::Variant(v) => v.variants.iter_mut().for_each(|v| fix(&mut v.fields)),
+                    _ => {}
+                }
+            }
+            ctx.count("qualified_compact_type_names", n);
+        }
         let d = settings_variants(&r, (case % 3) as usize);
         let regj = reg::to_json(&r);
         let dj = serde_json::to_value(&d).unwrap();
